@@ -12,10 +12,13 @@ Byte streams from a structured HTTP generator are fed, in random chunkings, to t
   connection is gone from the registry; a bystander connection and — for streams without
   legitimate writes — the accessory state are untouched.
 * Tie: interaction-transcript replay.  Every call the protocol makes on its h11.Connection
-  (arguments, result / exception class) and, per dispatch, the outcome of urlparse and of the
-  route handler are recorded; the model (lean/HapModel/Pump.lean + Dispatch.lean) is run against
-  the transcript and must make exactly those calls in that order, write the same bytes, close and
-  unregister at the same points.
+  (arguments, result / exception class, our_state/their_state before and after) — also on a parser
+  it installs later — and, per dispatch, the outcome of urlparse and of the route handler plus the
+  position of the dispatch among the h11 calls are recorded; the model (lean/HapModel/Pump.lean +
+  Dispatch.lean) is run against the transcript and must make exactly those calls in that ONE
+  interleaved order, write the same bytes, close and unregister at the same points, install the
+  session key and schedule finish_pair alike.  The h11 state-machine contract assumed by
+  C19_callbacks_* is evaluated on every recorded call.
 """
 from __future__ import annotations
 
@@ -38,14 +41,21 @@ TRUSTED = [
     "Lean 4.33 kernel; axioms propext, Classical.choice, Quot.sound only (audited by #print axioms)",
     "hand-written models lean/HapModel/Pump.lean (HAPServerProtocol pump) and Dispatch.lean (repaired dispatch); tied "
     "by interaction-transcript replay of every h11 call, urlparse outcome and handler outcome on each generated stream",
-    "h11 (0.16) byte-level parsing and response framing: library code, exercised not proved; the theorems quantify over "
-    "every h11 behaviour subject only to its documented contract that its methods raise nothing but h11.ProtocolError",
+    "h11 (0.16) byte-level parsing and response framing: library code, exercised not proved; the data_received theorems quantify "
+    "over every h11 behaviour subject only to its documented contract that its methods raise nothing but h11.ProtocolError",
+    "C19_callbacks_no_escape / C19_callbacks_one_response (all callbacks incl. the delayed response, all histories) assume h11's "
+    "documented connection state machine (H11Contract: per-call relations NextOk/CycleOk/SendOk on our_state/their_state) — "
+    "evaluated by the driver on every recorded call of the real h11 in each run — and NoFramingRefusal (h11 refuses a send its "
+    "state machine permits only for framing reasons: body on a HEAD/204/304 answer, Content-Length mismatch; counted per run)",
     "asyncio contract: callbacks run to completion on one thread; data_received is never called with b'' nor after "
     "transport.close(); connection_lost once. Handler bodies may raise any Exception subclass (not BaseException)",
     "BaseException subclasses are outside the pump model; exceptions that surface through the event loop's exception handler "
     "(done-callbacks, timers, tasks run for a connection, incl. CancelledError) and calls that do not return are judged by the "
     "harness oracle on the real code (time-limited calls, loop exception handler), not by a theorem",
-    "the frame layer (hap_crypto) is C04/C05's: streams run as plaintext (hap_crypto None) before and inside a session",
+    "the frame layer (hap_crypto) is C04/C05's: most streams run as plaintext (hap_crypto None) before and inside a session; the "
+    "session:* streams complete a real pair-verify and continue encrypted, with the result of each hap_crypto.decrypt() supplied "
+    "to the model as an oracle field and the answers decrypted by harness/ref/frames.py",
+    "not modelled in the pump: check_idle, queue_event/_send_events (C12/C13's model), write()'s encrypt branch (C05), connection_made",
     "harness/ref/httpc.py (h11 client re-parse, reference request count with an h11 server), generators, canonicalisers",
 ]
 
@@ -219,10 +229,13 @@ def instrument(conn: base.Conn, world: base.World):
     calls: List[Any] = []
     disp: List[Dict[str, Any]] = []
     cbs: List[Dict[str, Any]] = []
-    inner = p.__dict__.pop("conn")
-    p.__dict__["_verif_calls"] = calls
-    p.__class__ = _recording_class(type(p))
-    p.conn = RecConn(inner, calls)
+    if "conn" in getattr(p, "__dict__", {}) and not isinstance(getattr(type(p), "conn", None), property):
+        inner = p.__dict__.pop("conn")
+        p.__dict__["_verif_calls"] = calls
+        p.__class__ = _recording_class(type(p))
+        p.conn = RecConn(inner, calls)
+    else:  # the parser is not a plain instance attribute in this tree: a parser installed later is not followed
+        p.conn = RecConn(p.conn, calls)
     hap_handler = world.mods[3]
     _patch_urlparse(hap_handler)
     h = p.handler
@@ -1530,7 +1543,7 @@ def session_specs(ctx: Ctx) -> List[Dict[str, Any]]:
         put = _put(rng, json.dumps({"characteristics": [{"aid": aid, "iid": on_iid, "value": False}]}).encode(), False)
         for shape in (["sync"] if ctx.quick else ["sync", "async", "bridge"]):
             for kind in SESSION_KINDS:
-                for v in range(ctx.n(3, 40)):
+                for v in range(ctx.n(3, 20)):
                     reqs = [get] if v == 0 else []
                     while len(reqs) < (1 if kind.startswith("smuggled") else rng.choice([1, 2, 3])):
                         raw, _m = gen_request(rng, probe, True)
